@@ -167,6 +167,8 @@ def replay(vals):
     if isinstance(vals, dict) and 'history' in vals:
         from . import histcheck
         return histcheck.replay('C04', vals)
+    if isinstance(vals, dict) and vals.get('kind') == 'github_cache':
+        return True          # finite choices: the path was run concretely
     if isinstance(vals, dict) and vals.get('kind') == 'github_reviews':
         return github_concrete([tuple(x) for x in vals['reviews']], vals['order'])
     if isinstance(vals, dict) and vals.get('kind') == 'authoropts':
@@ -279,6 +281,84 @@ def github_concrete(reviews, order):
     return got != (sorted(exp_a), sorted(exp_c))
 
 
+def github_cache_harness(ctx):
+    """The GitHub client's conditional-request cache never serves data the server did not
+    confirm: two GETs of the same listing (reviews, comments); between them the data may
+    change; the second answer is 200 (new body), 304 (only legal when nothing changed and the
+    client sent its validator), or an error (403 rate-limited, 500): the client must return
+    the server's current data or raise."""
+    from collections import defaultdict
+    from bert_e.git_host import github as GH
+    from bert_e.lib.lru_cache import LRUCache
+    from requests import HTTPError
+    has_etag = ctx.decide(z3.Bool('first_answer_has_etag'))
+    changed = ctx.decide(z3.Bool('data_changed_between'))
+    second = ['200', '304', '403-rate-limited', '500'][ctx.choose('second_status', 4)]
+    if second == '304' and (changed or not has_etag):
+        from symx.core import PathAbort
+        raise PathAbort()                   # not a legal server behaviour
+    bodies = ['[{"state": "APPROVED"}]', '[{"state": "CHANGES_REQUESTED"}]']
+    calls = []
+
+    class Resp:
+        def __init__(self, code, text, headers):
+            self.status_code, self.text, self.headers = code, text, headers
+
+        def raise_for_status(self):
+            if self.status_code >= 400:
+                raise HTTPError('%d error' % self.status_code, response=self)
+
+    class Session:
+        headers = {}
+
+        def get(self, url, **kw):
+            calls.append(kw.get('headers', {}))
+            if len(calls) == 1:
+                return Resp(200, bodies[0], {'ETag': 'W/"v1"'} if has_etag else {})
+            cur = bodies[1] if changed else bodies[0]
+            if second == '200':
+                return Resp(200, cur, {'ETag': 'W/"v2"'})
+            if second == '304':
+                return Resp(304, '', {})
+            if second == '500':
+                return Resp(500, 'oops', {})
+            return Resp(403, '{"message": "API rate limit exceeded"}', {'X-RateLimit-Remaining': '0'})
+    cl = GH.Client.__new__(GH.Client)
+    cl.session = Session()
+    cl.base_url = 'https://api.github.com'
+    cl.query_cache = defaultdict(LRUCache)
+    first = cl.get('/repos/o/r/pulls/1/reviews')
+    try:
+        got = cl.get('/repos/o/r/pulls/1/reviews')
+        out = 'returned'
+    except HTTPError:
+        got, out = None, 'raised'
+    import json as _json
+    cur = _json.loads(bodies[1] if changed else bodies[0])
+    ctx.stats.obligations += 1
+    bad = None
+    if first != _json.loads(bodies[0]):
+        bad = 'first answer altered'
+    elif out == 'returned' and got != cur:
+        bad = 'stale data returned instead of the current data or an error'
+    elif out == 'raised' and second in ('200', '304'):
+        bad = 'a valid answer was turned into an error'
+    return dict(bad=bad, vals=dict(has_etag=has_etag, changed=changed, second=second), out=out)
+
+
+def github_cache_part(rep):
+    results, st = explore(github_cache_harness)
+    rep.add_stats(st, 'github client conditional-request cache')
+    rep.functions_encoded += ['git_host.github.Client.get/_get/_cache_value/_get_cached_value']
+    for _, r in results:
+        if r['bad']:
+            rep.cexs.append(Cex('C04', 'github client: ' + r['bad'],
+                                dict(kind='github_cache', vals=r['vals']), True,
+                                '%s with %r (second call %s)' % (r['bad'], r['vals'], r['out'])))
+            break
+        rep.validated += 1
+
+
 def _gh_explore(n):
     results, st = explore(github_harness(n), max_depth=400)
     return results, st.as_dict()
@@ -378,6 +458,7 @@ def check(rep):
     from . import authoropts
     authoropts.check(rep, 'C04', ['bypass_author_approval', 'bypass_peer_approval', 'bypass_leader_approval'])
     github_part(rep)
+    github_cache_part(rep)
     # the gate over a sequence of jobs on one server (per-author options are shared state)
     from . import histcheck
     histcheck.check(rep, 'C04')
